@@ -1,9 +1,11 @@
 --------------------------- MODULE ClientFaultTrace ---------------------------
 (* Judge for recorded fault-injection runs of the real client: one short trace *)
 (* per (session script, byte offset of the reply stream, fault kind).           *)
-(*   Run{end: layout, cut, fault}   the connection is faulted after `cut` bytes *)
+(*   Run{end: layout, cut, fault, mid}  the connection is faulted after `cut`   *)
+(*                                  bytes; mid: that is inside a response       *)
 (*   Ret{i, res}                    the blocking call of command i returned     *)
-(*   End{issued, closed, hung}      the run is over                             *)
+(*   End{issued, closed, hung, self} the run is over; self: every call had      *)
+(*                                  returned before the caller closed the client*)
 EXTENDS ClientFault, Json, IOUtils
 
 VARIABLE l
@@ -13,7 +15,7 @@ Trace == ndJsonDeserialize(IOEnv.TRACE_FILE)
 TraceInit == Init /\ l = 1
 
 Run(r) ==
-  /\ layout' = r.end /\ delivered' = r.cut /\ fault' = r.fault /\ issued' = 0
+  /\ layout' = r.end /\ delivered' = r.cut /\ fault' = r.fault /\ inside' = r.mid /\ issued' = 0
   /\ result' = [i \in 1..Len(r.end) |-> "none"] /\ reader' = "run" /\ closeSt' = "no"
 
 \* a call returned: success requires the completion to have been delivered in full
@@ -22,14 +24,15 @@ Ret(r) ==
   /\ r.res = "ok" => delivered >= EndOff[r.i]
   /\ result' = [result EXCEPT ![r.i] = r.res]
   /\ issued' = IF r.i > issued THEN r.i ELSE issued
-  /\ UNCHANGED <<layout, delivered, fault, reader, closeSt>>
+  /\ UNCHANGED <<layout, delivered, fault, inside, reader, closeSt>>
 
 \* at the end of a run every issued call has returned, Close has returned (so the reader is gone)
 End(r) ==
   /\ ~r.hung /\ r.closed
+  /\ (fault = "stall" /\ inside) => r.self      \* the client's own timeout, not the caller's Close
   /\ \A i \in 1..r.issued : Returned(i)
   /\ reader' = "exited" /\ closeSt' = "returned"
-  /\ UNCHANGED <<layout, delivered, fault, issued, result>>
+  /\ UNCHANGED <<layout, delivered, fault, inside, issued, result>>
 
 TraceNext ==
   /\ l <= Len(Trace)
